@@ -213,6 +213,7 @@ class C02(Plugin):
         cfg['p_focus'] = rng.choice([0.0, 0.15, 0.3])     # sparse schedule: query SOME ancestors of a node, then edit that node
         cfg['p_par'] = rng.choice([0.0, 0.1, 0.25])      # par() / unpar() as edits
         cfg['p_offset'] = rng.choice([0.0, 0.0, 0.15])    # pure-trivia put_src(action='offset') as edits
+        cfg['p_rawnone'] = rng.choice([0.0, 0.0, 0.1, 0.2])  # put_src(action=None): trailing comment / whitespace at a line end
         cfg['max_lines'] = 40
         return cfg
 
@@ -269,6 +270,46 @@ class C02(Plugin):
             return {'k': 'unpar', 'path': [list(p) for p in rng.choice(cands)], 'node': rng.choice([False, False, True])}
         return {'k': 'par', 'path': [list(p) for p in rng.choice(cands)], 'force': rng.choice([False, True])}
 
+    def gen_rawnone_op(self, rng):
+        """put_src(..., action=None) - the documented uses: add / change / remove a trailing comment or trailing blanks at
+        the end of a logical line, called on the innermost statement that ends on that line (the node that 'owns' it)."""
+        import io
+        import tokenize
+        run = self.run
+        src = run.root.src
+        try:
+            toks = list(tokenize.generate_tokens(io.StringIO(src).readline))
+        except (tokenize.TokenError, SyntaxError, IndentationError):
+            return None
+        ends = {}
+        for path, node, parent, field, idx in O.all_nodes(run.root.a):
+            if isinstance(node, ast.stmt):
+                cur = ends.get(node.end_lineno)
+                if cur is None or len(path) > len(cur):
+                    ends[node.end_lineno] = path
+        lines = src.split('\n')
+        cands = []
+        for i, t in enumerate(toks):
+            if t.type == tokenize.NEWLINE and t.start[0] in ends:
+                prev = toks[i - 1] if i else None
+                cmt = prev if prev is not None and prev.type == tokenize.COMMENT and prev.start[0] == t.start[0] else None
+                code = toks[i - 2] if cmt is not None and i >= 2 else prev
+                if code is None or code.end[0] != t.start[0] or code.type in (tokenize.NL, tokenize.NEWLINE, tokenize.COMMENT, tokenize.INDENT, tokenize.DEDENT):
+                    continue
+                ln = t.start[0] - 1
+                cands.append((ends[t.start[0]], ln, code.end[1], len(lines[ln]), cmt is not None))
+        if not cands:
+            return None
+        path, ln, col, end_col, has = rng.choice(cands)
+        r = rng.random()
+        if has and r < 0.4:
+            text = ''
+        elif r < 0.5:
+            text = rng.choice(['', ' ', '   '])
+        else:
+            text = rng.choice(['  # rn', ' # a longer raw comment', '#r', '  # ä🎉'])
+        return {'k': 'rawnone', 'path': [list(p) for p in path], 'rect': [ln, col, ln, end_col], 'text': text}
+
     def gen_op(self, rng):
         run = self.run
         tree = run.root.a
@@ -303,6 +344,10 @@ class C02(Plugin):
         if r < run.cfg.get('p_par', 0) + run.cfg.get('p_offset', 0):
             from .props_c10 import gen_offset_op
             return gen_offset_op(rng, run.root.src)
+        if r < run.cfg.get('p_par', 0) + run.cfg.get('p_offset', 0) + run.cfg.get('p_rawnone', 0):
+            op = self.gen_rawnone_op(rng)
+            if op is not None:
+                return op
         return O.gen_edit(rng, tree, run.cfg)
 
     def apply(self, op):
@@ -321,6 +366,15 @@ class C02(Plugin):
             f = O.resolve_f(run.root, op['path'])
             run.stats['op_offset_put_src'] += 1
             return f.put_src(op['text'], *op['rect'], 'offset')
+        if op['k'] == 'rawnone':
+            f = O.resolve_f(run.root, op['path'])
+            ln, col, end_ln, end_col = op['rect']
+            lines = run.root.src.split('\n')
+            # precondition (replay / minimised histories): still the tail of that line after the statement's last token
+            if ln >= len(lines) or end_col != len(lines[ln]) or f.end_ln != ln or f.end_col > col or (lines[ln][col:].strip() and not lines[ln][col:].lstrip().startswith('#')):
+                raise O.Skip('rawnone precondition')
+            run.stats['op_rawnone_put_src'] += 1
+            return f.put_src(op['text'], ln, col, end_ln, end_col, None)
         if op['k'] == 'query':
             only = set(op['paths']) if op['paths'] is not None else None
             queries.query_tree(run.root, op.get('level', 2), only)
